@@ -80,6 +80,28 @@ def get_cfg(name):
             if shuffled:
                 cfg = {k: cfg[k] for k in sorted(cfg)}
             _CFG[name] = cfg
+        elif name == 'WIDE':
+            # widths the packaged configuration never uses: fixed text far beyond 999 characters (no length prefix
+            # limits a FIXED element), numbers and decimals with more digits than the default decimal context (28)
+            # or a machine word carries
+            _CFG[name] = {
+                '1': {'field_name': 'Bitmap secondary', 'field_type': 'FIXED', 'field_length': 8},
+                '2': {'field_name': 'w1500', 'field_type': 'FIXED', 'field_length': 1500},
+                '3': {'field_name': 'dec40', 'field_type': 'FIXED', 'field_length': 40,
+                      'field_python_type': 'decimal'},
+                '4': {'field_name': 'w1003', 'field_type': 'FIXED', 'field_length': 1003},
+                '5': {'field_name': 'lllvar', 'field_type': 'LLLVAR', 'field_length': 0},
+                '6': {'field_name': 'int30', 'field_type': 'FIXED', 'field_length': 30, 'field_python_type': 'int'},
+                '7': {'field_name': 'w2000', 'field_type': 'FIXED', 'field_length': 2000},
+                '8': {'field_name': 'pan', 'field_type': 'LLVAR', 'field_length': 0, 'field_processor': 'PAN'},
+                '9': {'field_name': 'dec31', 'field_type': 'FIXED', 'field_length': 31,
+                      'field_python_type': 'decimal'},
+                '10': {'field_name': 'pds', 'field_type': 'LLLVAR', 'field_length': 0, 'field_processor': 'PDS'},
+                '11': {'field_name': 'w3', 'field_type': 'FIXED', 'field_length': 3},
+                '70': {'field_name': 'w1002', 'field_type': 'FIXED', 'field_length': 1002},
+                '127': {'field_name': 'long60', 'field_type': 'FIXED', 'field_length': 60,
+                        'field_python_type': 'long'},
+            }
         elif name == 'PKGS':
             from cardutil.config import config
             _CFG[name] = {k: config['bit_config'][k] for k in sorted(config['bit_config'])}
@@ -94,6 +116,8 @@ def lib_cfg(case_or_name, hex_flag=False):
     hex-bitmap cases, so that both entry paths are exercised"""
     name = case_or_name['cfg'] if isinstance(case_or_name, dict) else case_or_name
     hx = case_or_name['hex'] if isinstance(case_or_name, dict) else hex_flag
+    if isinstance(case_or_name, dict) and case_or_name.get('via_default'):
+        return None                              # the caller has installed this configuration as the package default
     if name == 'LIVE':
         return _LIVE['cfg']                      # the library gets the very same object every time
     if name == 'PKG':
@@ -259,6 +283,18 @@ def build_value(bc, kind, param, enc, seed, bit):
         return 0 if param == 0 else int('9' + digits(param - 1, salt)) if param > 1 else 1 + salt % 9
     if kind == 'DEC':
         return decimal_value(bc['field_length'], param)
+    if kind == 'NS':
+        # a number handed over as text (what a CSV cell or a JSON string gives): param = [number variant, form]
+        # form 0: plain numeral; 1: zero-filled to the width; 2: more leading zeros than the width has room for
+        # (the NUMBER still fits the element)
+        n = number_value(bc['field_length'], param[0], salt)
+        w = bc['field_length']
+        return [str(n), str(n).zfill(w), '00' + str(n).zfill(w)][param[1]]
+    if kind == 'VNS':
+        v = build_value(bc, 'VN', param, enc, seed, bit)
+        return str(v)
+    if kind == 'DECS':
+        return format(decimal_value(bc['field_length'], param), 'f')
     if kind == 'D':
         return date_value(param[0], param[1], bc.get('field_date_format', '%y%m%d'))
     if kind == 'PAN':
@@ -301,6 +337,11 @@ def build_message(case):
 
 def expected_value(bc, v):
     proc = bc.get('field_processor')
+    t = bc.get('field_python_type')
+    if isinstance(v, str) and t in ('int', 'long'):
+        return int(v)
+    if isinstance(v, str) and t == 'decimal':
+        return decimal.Decimal(v)
     if proc == 'PAN':
         return v[:6] + '*' * (len(v) - 10) + v[-4:]
     if proc == 'PAN-PREFIX':
@@ -366,10 +407,13 @@ def single_variants(bc, tier='quick'):
         out += [['TP', [w, pi]] for pi in range(10)]
     elif cls == 'num':
         out += [['N', i] for i in range(NUM_VARIANTS)]
+        out += [['NS', [i, form]] for i in range(NUM_VARIANTS) for form in range(3)]
     elif cls == 'varnum':
         out += [['VN', n] for n in range(0, top + 1)]
+        out += [['VNS', n] for n in (0, 1, 2, 9, 18, 19, 20, top)]
     elif cls == 'dec':
         out += [['DEC', i] for i in range(DEC_VARIANTS)]
+        out += [['DECS', i] for i in range(DEC_VARIANTS)]
     elif cls == 'date':
         fmt = bc.get('field_date_format', '%y%m%d')
         for y in range(1969, 2069):
